@@ -14,6 +14,12 @@ Ltac binv H :=
 
 Ltac okinv H := injection H as H; subst.
 
+(* case analysis on the test of an `if` at the head of an equation, keeping only the branch that can return Ok *)
+Ltac ifd H :=
+  match type of H with
+  | (if ?c then _ else _) = _ => let Q := fresh "Q" in destruct c eqn:Q; try discriminate
+  end.
+
 Lemma mapM_Forall2 {A B} (f : A -> result B) l l' : mapM f l = Ok l' -> Forall2 (fun x y => f x = Ok y) l l'.
 Proof.
   revert l'. induction l as [|x l IH]; intros l'; simpl.
